@@ -30,4 +30,16 @@ PROPS = {
                         "clock readings below 2^62 ns (146 years of uptime)"],
         "explanation": "theorems about saturatingAdd (regenerated from clock.go) and the read decision; Store-level behaviour compared step by step with the model",
     },
+    "C04": {
+        "props_files": ["Props/C04.v"],
+        "go_tests": ["TestVerifWheel"],
+        "level": "proof",
+        "rule": "random schedule / re-schedule / deschedule / advance sequences on the real TimerWheel with explicit times: deadlines on "
+                "all five levels, +-2ns around every slot boundary and wrap-around, advances of 0..several rotations; non-trivial = >= 3 steps",
+        "trusted_base": [KERNEL, EXTRACT, HARNESS,
+                         "modelled, not verified: the intrusive doubly linked slot lists as sub-sequences of one flat list; int64 as Z"],
+        "assumptions": ["callers schedule only deadlines after wheel time (established by the store paths, see C04 store-level part)",
+                        "advance times are non-decreasing and below 2^62 ns"],
+        "explanation": "wheel invariants proved over all op sequences; model replayed against the real TimerWheel",
+    },
 }
